@@ -12,6 +12,7 @@ import (
 	"sort"
 	"strconv"
 	"strings"
+	"sync/atomic"
 	"testing"
 
 	"github.com/database64128/shadowsocks-go/conn"
@@ -698,6 +699,9 @@ func ask(r *router.Router, q *request, resolvers []*fakeResolver) (o outcome) {
 
 func buildRouter(g *genCase) (*router.Router, error) {
 	for p, b := range g.files {
+		if err := os.MkdirAll(filepath.Dir(p), 0o755); err != nil {
+			return nil, fmt.Errorf("harness: %w", err)
+		}
 		if err := os.WriteFile(p, b, 0o644); err != nil {
 			return nil, fmt.Errorf("harness: %w", err)
 		}
@@ -744,16 +748,16 @@ var recRouter = ev.New("C09", "router-model",
 		"repr-single", "repr-ranges", "repr-bitmap", "todomains-over-16", "gob-set", "text-set", "resolved", "inverted", "or-group",
 		"target-ip", "target-domain", "unknown-user", "default-implicit", "default-reject", "errlookup-skipped", "route-resolver", "expected-prefixes")
 
+var dirSeq atomic.Int64
+
+// workDir names a fresh directory for the set files of one case; it is created only when the case
+// has files to write.
 func workDir(t interface{ Fatalf(string, ...any) }) string {
 	base := os.Getenv("VERIF_WORK")
 	if base == "" {
 		base = os.TempDir()
 	}
-	d, err := os.MkdirTemp(base, "c09-")
-	if err != nil {
-		t.Fatalf("harness: %v", err)
-	}
-	return d
+	return filepath.Join(base, fmt.Sprintf("c09-%d-%d", os.Getpid(), dirSeq.Add(1)))
 }
 
 const requestsPerConfig = 12
